@@ -11,19 +11,24 @@ package c07
 
 import (
 	"bytes"
+	"compress/zlib"
 	"crypto/rand"
 	"crypto/rsa"
 	"crypto/x509"
 	"fmt"
 	"math"
 	mrand "math/rand"
+	"io"
 	"path/filepath"
+	"runtime"
 	"sort"
 	"testing"
 
+	"github.com/go-logr/logr"
 	"go.minekube.com/common/minecraft/component"
 
 	"go.minekube.com/gate/pkg/edition/java/profile"
+	"go.minekube.com/gate/pkg/edition/java/proto/codec"
 	"go.minekube.com/gate/pkg/edition/java/proto/packet"
 	"go.minekube.com/gate/pkg/edition/java/proto/packet/chat"
 	"go.minekube.com/gate/pkg/edition/java/proto/packet/plugin"
@@ -35,6 +40,7 @@ import (
 	"go.minekube.com/gate/pkg/util/uuid"
 	"go.minekube.com/gate/pkg/verifexport"
 
+	"verif/harness/mcwire"
 	"verif/harness/tracefmt"
 )
 
@@ -372,6 +378,136 @@ func encode(p proto.Packet, c *proto.PacketContext) (out []byte, err error) {
 	return b.Bytes(), err
 }
 
+// hookWriter is a connection: it collects what is written and can run something in the middle of a send
+// (after the first Write of a frame), the way another goroutine would while this one is held up in its socket.
+type hookWriter struct {
+	buf             bytes.Buffer
+	afterFirstWrite func()
+}
+
+func (w *hookWriter) Write(p []byte) (int, error) {
+	n, err := w.buf.Write(p)
+	if f := w.afterFirstWrite; f != nil {
+		w.afterFirstWrite = nil
+		f()
+	}
+	return n, err
+}
+
+// readFrames splits a connection's bytes into frame payloads (id + body) with the harness's own framing
+// (VarInt length, optional data-length + Go's compress/zlib); what cannot be framed is returned as an error.
+func readFrames(wire []byte, compressed bool) (payloads [][]byte, err error) {
+	for len(wire) > 0 {
+		rd := mcwire.NewRd(wire)
+		n := rd.VarInt()
+		if rd.Err != nil || n < 0 || n > rd.Len() {
+			return payloads, fmt.Errorf("frame announces %d bytes, %d follow", n, rd.Len())
+		}
+		body := rd.N(n)
+		wire = wire[rd.Off:]
+		if compressed {
+			br := mcwire.NewRd(body)
+			dl := br.VarInt()
+			if br.Err != nil {
+				return payloads, fmt.Errorf("bad data length")
+			}
+			if dl == 0 {
+				body = br.Rest()
+			} else {
+				zr, e := zlib.NewReader(bytes.NewReader(body[br.Off:]))
+				if e != nil {
+					return payloads, e
+				}
+				out, e := io.ReadAll(zr)
+				if e != nil || len(out) != dl {
+					return payloads, fmt.Errorf("inflate: %v (%d of %d bytes)", e, len(out), dl)
+				}
+				body = out
+			}
+		}
+		payloads = append(payloads, append([]byte(nil), body...))
+	}
+	return payloads, nil
+}
+
+// overlapPhase: after one connection sent a compressed packet of a kind through codec.Encoder.WritePacket, two
+// other connections are sent a packet of that kind at overlapping times (the second send happens while the
+// first is in the middle of its write). Each connection must have received exactly the one frame meant for it.
+func overlapPhase(tw *tracefmt.Writer) int {
+	defer runtime.GOMAXPROCS(runtime.GOMAXPROCS(1))
+	const v = 767
+	kinds := []shape{
+		{"plugin", v, []int{4, 40, 0, 0, 0, 0}}, {"keepalive", v, []int{7, 0, 0, 0, 0, 0}},
+		{"disconnect", v, []int{1, 0, 0, 0, 0, 0}}, {"upsert", v, []int{63, 1, 1, 6, 0, 0}},
+		{"piremove", v, []int{2, 0, 0, 0, 0, 0}}, {"transfer", v, []int{16, 25565, 0, 0, 0, 0}},
+	}
+	newEnc := func(w io.Writer, thr int) *codec.Encoder {
+		e := codec.NewEncoder(w, proto.ClientBound, logr.Discard())
+		e.SetProtocol(proto.Protocol(v))
+		e.SetState(state.Play)
+		if thr >= 0 {
+			if err := e.SetCompression(thr, 1); err != nil {
+				panic(err)
+			}
+		}
+		return e
+	}
+	seen := map[string]bool{}
+	n := 0
+	for _, k := range kinds {
+		for _, thr := range []int{-1, 1} { // the two later connections: uncompressed / compressing everything
+			for attempt := 0; attempt < 12; attempt++ {
+				pa, _, _ := build(k)
+				if _, err := newEnc(&hookWriter{}, 1).WritePacket(pa); err != nil { // connection A: compressed send
+					panic(err)
+				}
+				pb, _, fb := build(k)
+				pc, _, fc := build(k)
+				sinkB, sinkC := &hookWriter{}, &hookWriter{}
+				encB, encC := newEnc(sinkB, thr), newEnc(sinkC, thr)
+				var errB error
+				sinkC.afterFirstWrite = func() { _, errB = encB.WritePacket(pb) }
+				_, errC := encC.WritePacket(pc)
+				for _, c := range []struct {
+					conn string
+					w    *hookWriter
+					p    proto.Packet
+					f    M
+					err  error
+				}{{"B", sinkB, pb, fb, errB}, {"C", sinkC, pc, fc, errC}} {
+					frames, ferr := readFrames(c.w.buf.Bytes(), thr >= 0)
+					es := ""
+					if c.err != nil {
+						es = "write: " + c.err.Error()
+					} else if ferr != nil {
+						es = "framing: " + ferr.Error()
+					} else if len(frames) != 1 {
+						es = fmt.Sprintf("framing: %d frames on the connection, 1 sent", len(frames))
+					}
+					payload := []byte{}
+					if len(frames) > 0 {
+						payload = frames[0]
+					}
+					rec := tracefmt.Rec{"ev": "frame", "pkt": k.Pkt, "v": v, "shape": k.P, "f": c.f, "conn": c.conn, "thr": thr,
+						"pid": int(pid(state.Play.ClientBound, v, c.p)), "payload": bs(payload), "err": es}
+					// identical observations are logged once (key: kind, compression, what arrived relative to what was meant)
+					key := fmt.Sprint(k.Pkt, thr, c.conn, es, attempt < 2)
+					if es == "" && attempt >= 2 && seen[key] {
+						continue
+					}
+					if es != "" && seen[key] {
+						continue
+					}
+					seen[key] = true
+					tw.Emit(rec)
+					n++
+				}
+			}
+		}
+	}
+	return n
+}
+
 func reusePhase(tw *tracefmt.Writer, shapes []shape) int {
 	type group struct {
 		pkt string
@@ -492,6 +628,7 @@ func TestEncode(t *testing.T) {
 	// The same packet OBJECT written to several connections: built once for the newest protocol of its
 	// shape, then encoded for every protocol of that shape, newest first. What it means does not change.
 	nreuse := reusePhase(tw, shapes)
+	noverlap := overlapPhase(tw)
 	nfd := 0
 	for a := -20; a <= 20; a++ {
 		for b := -9; b <= 9; b++ {
@@ -506,5 +643,5 @@ func TestEncode(t *testing.T) {
 		t.Fatal(err)
 	}
 	tracefmt.WriteJSON("stats.json", map[string]any{"packets": len(shapes), "per_packet": perPkt, "encode_errors": nerr,
-		"floordiv": nfd, "samples": samples, "reused_encodes": nreuse})
+		"floordiv": nfd, "samples": samples, "reused_encodes": nreuse, "overlap_frames": noverlap})
 }
